@@ -33,6 +33,7 @@ type Solver struct {
 	inPath  bool
 	pathLog strings.Builder
 	logging bool
+	Restarts    int
 	Fallbacks   int
 	FallbackOK  int
 	fbTimeoutS  int
@@ -241,6 +242,7 @@ func (s *Solver) Check(extra *Term, vars []*Term) (CheckResult, map[string]uint6
 	t0 := time.Now()
 	lines := s.roundtrip()
 	res := ResUnknown
+	canceled := false
 	for _, l := range lines {
 		switch {
 		case l == "sat":
@@ -249,6 +251,10 @@ func (s *Solver) Check(extra *Term, vars []*Term) (CheckResult, map[string]uint6
 			res = ResUnsat
 		case l == "unknown" || l == "timeout":
 			res = ResUnknown
+		case strings.HasPrefix(l, "(error") && strings.Contains(l, "cancel"):
+			// the per-query timer fired inside push/assert processing: the incremental context is no longer
+			// trustworthy. Restart the process, re-establish the path context, and let the fallback decide.
+			canceled = true
 		case strings.HasPrefix(l, "(error"):
 			fmt.Fprintln(os.Stderr, "SOLVER ERROR:", l)
 			res = ResError
@@ -258,10 +264,16 @@ func (s *Solver) Check(extra *Term, vars []*Term) (CheckResult, map[string]uint6
 		}
 	}
 	var model map[string]uint64
+	if canceled {
+		res = ResUnknown
+		s.restart()
+	}
 	if res == ResUnknown {
 		// second opinion: one-shot solver run (full tactic pipeline) on the whole path context
-		s.send("(pop 1)\n")
-		s.flush()
+		if !canceled {
+			s.send("(pop 1)\n")
+			s.flush()
+		}
 		r2, m2 := s.fallback(extra, vars)
 		d := time.Since(t0)
 		if d > 3*time.Second && os.Getenv("GOSYM_SLOW") != "" {
@@ -541,4 +553,24 @@ func (s *Solver) fallback(extra *Term, vars []*Term) (CheckResult, map[string]ui
 		parseModel(rest, vars, s, model)
 	}
 	return res, model
+}
+
+// restart replaces the solver process and re-establishes the current path context from the log.
+func (s *Solver) restart() {
+	s.in.Close()
+	s.cmd.Process.Kill()
+	s.cmd.Wait()
+	s.Restarts++
+	n, err := NewSolver(s.kind, s.timeout)
+	if err != nil {
+		panic(&pathEnd{"solver-error", "restart failed: " + err.Error()})
+	}
+	s.cmd, s.in, s.out = n.cmd, n.in, n.out
+	s.buf.Reset()
+	s.buf.WriteString(n.buf.String())
+	if s.inPath {
+		s.buf.WriteString("(push 1)\n")
+		s.buf.WriteString(s.pathLog.String())
+	}
+	s.flush()
 }
